@@ -12,8 +12,8 @@ RULE = (
     "fields must be bit-identical.  Non-trivial transition = the DataFrame state changed."
 )
 BOUNDS = {
-    "quick": "12 operation instances, every history of depth <= 4 from one initial list (de-duplicated on the complete DataFrame state)",
-    "thorough": "12 operation instances, every history of depth <= 6",
+    "quick": "14 operation instances, every history of depth <= 4 from two initial lists (default index; permuted and gapped index), de-duplicated on the complete state (list table + the caller's persistent dimension tables)",
+    "thorough": "14 operation instances, every history of depth <= 6 from the two initial lists",
 }
 ASSUMPTIONS = [
     "positions compared with absolute tolerance 1e-8, rotation matrices with 1e-9 (analytic error of as_euler/from_euler round trips is ~1e-13 per step)",
@@ -48,7 +48,7 @@ OPS = [
     ("scale", 2.0), ("scale", 0.5),
     ("shift", (1.0, 0.0, 0.0)), ("shift", (0.0, -2.5, 1.0)),
     ("rotate", "Rz90"), ("rotate", "generic"),
-    ("flip", "none"), ("flip", "single"), ("flip", "single-array"), ("flip", "table"),
+    ("flip", "none"), ("flip", "single"), ("flip", "single-array"), ("flip", "table"), ("flip", "single-df"), ("flip", "table-df"),
     ("canonical",),
 ]
 DIM_SINGLE = [40.0, 50.0, 60.0]
@@ -72,15 +72,25 @@ class Spec(BFSSpec):
     def initial(self):
         from cryocat import cryomotl as cm
 
-        m = cm.Motl(frame(self.rows))
-        p, R = pose_of(m.df)
-        return [("list4", {"m": m, "p": p, "R": R})]
+        import pandas as pd
+
+        out = []
+        for name, order, labels in (("list4", [0, 1, 2, 3], [0, 1, 2, 3]), ("list4-permuted-gapped-index", [2, 0, 3, 1], [7, 0, 12, 3])):
+            df = frame([self.rows[i] for i in order])
+            df.index = labels  # what sort_values / remove_feature / reset_index=False leave behind
+            m = cm.Motl(df)
+            p, R = pose_of(m.df)
+            # the caller's own dimension tables live as long as the list and are passed again and again
+            dims = {"single-df": pd.DataFrame([DIM_SINGLE], columns=["x", "y", "z"]),
+                    "table-df": pd.DataFrame(DIM_TABLE.copy(), columns=["tomo_id", "x", "y", "z"])}
+            out.append((name, {"m": m, "p": p, "R": R, "dims": dims}))
+        return out
 
     def ops(self, st):
         return OPS
 
     def key(self, st):
-        return type(st["m"]).__name__ + "|" + df_key(st["m"].df)
+        return type(st["m"]).__name__ + "|" + df_key(st["m"].df) + "|" + "|".join(df_key(st["dims"][k]) for k in sorted(st["dims"]))
 
     def mkey(self, st):
         return (np.round(st["p"], 6).tobytes(), np.round(st["R"], 6).tobytes())
@@ -121,8 +131,11 @@ class Spec(BFSSpec):
             elif op[1] == "single-array":
                 obs.lib(site, m.flip_handedness, np.array(DIM_SINGLE))
                 p[:, 2] = DIM_SINGLE[2] + 1 - p[:, 2]
+            elif op[1] == "single-df":
+                obs.lib(site, m.flip_handedness, st["dims"]["single-df"])
+                p[:, 2] = DIM_SINGLE[2] + 1 - p[:, 2]
             else:
-                obs.lib(site, m.flip_handedness, DIM_TABLE.copy())
+                obs.lib(site, m.flip_handedness, DIM_TABLE.copy() if op[1] == "table" else st["dims"]["table-df"])
                 for t, _, _, dz in DIM_TABLE:
                     sel = tomo == t
                     p[sel, 2] = dz + 1 - p[sel, 2]
@@ -164,7 +177,12 @@ class Spec(BFSSpec):
             if kind in ("shift", "scale", "update_coordinates"):
                 pass
         obs.nontrivial = df_key(df1) != df_key(df0)
-        return {"m": m, "p": p, "R": R}
+        if kind == "flip" and op[1].endswith("-df"):
+            d = st["dims"][op[1]]
+            want = DIM_SINGLE if op[1] == "single-df" else DIM_TABLE
+            obs.check(np.array_equal(d.to_numpy(dtype=float).reshape(np.shape(want)), np.asarray(want, dtype=float)), site, "caller-dimension-table-unmodified",
+                      lambda: f"the caller's dimension table now reads {d.to_numpy().tolist()}")
+        return {"m": m, "p": p, "R": R, "dims": st["dims"]}
 
 
 def families(tier, seed):
